@@ -92,7 +92,7 @@ Definition parse_bad_seek (o : sobj) : outcome top * sobj :=
     (sync.Pool may also drop objects: [pick] out of range is a miss). *)
 Definition pool := list sobj.
 
-Fixpoint remove_nth {A} (n : nat) (l : list A) : list A :=
+Fixpoint remove_nth {A} (n : nat) (l : list A) {struct l} : list A :=
   match l with
   | [] => []
   | x :: l' => match n with O => l' | S n' => x :: remove_nth n' l' end
@@ -106,8 +106,7 @@ Definition get (pick : option nat) (p : pool) : sobj * pool :=
 
 Inductive call :=
 | Parse (pick : option nat) (uni : uclass) (bytes : str)   (* ParseString / ParseReadSeeker on these bytes *)
-| ParseBadSeek (pick : option nat)                        (* ParseReadSeeker on a reader whose Seek fails *)
-| Drop.                                                   (* the garbage collector empties the pool *)
+| ParseBadSeek (pick : option nat).                       (* ParseReadSeeker on a reader whose Seek fails *)
 
 Definition step (p : pool) (c : call) : pool * outcome top :=
   match c with
@@ -117,7 +116,6 @@ Definition step (p : pool) (c : call) : pool * outcome top :=
   | ParseBadSeek pick =>
     let (o, p') := get pick p in
     let (r, o') := parse_bad_seek o in (o' :: p', r)
-  | Drop => ([], Err (EOther "not a parse"))
   end.
 
 (** the pool after a history of calls *)
